@@ -21,6 +21,9 @@ ops:
                                              b2u / u2b file, X = no such file, D = a directory, S<hex> = a file with
                                              this content.  Answer: ok | err | PANIC   (MODELLED initBig5 state machine)
   hb2u <hex> | hu2b <hex> | hrt <hex>        the conversions with the maps as the history left them
+  start <specB> <specU> <name-hex>           a FRESH process runs initgin.InitAllConfig under an ini naming the two tables
+                                             and the site name; answer: BBSNAME_BIG5 afterwards | INIT-ERR
+                                             (MODELLED boot over Gen.Big5.initOrder from empty maps)
 -/
 
 structure Tables where
@@ -40,10 +43,17 @@ def mkTables (cb cu : Bytes) : Tables :=
 
 def distinctKeys (m : GoMap) : Nat := m.size
 
-def wfLine (t : Tables) : String :=
+/-- the first line is not a data row (so the loader's unconditional `lines[1:]` loses nothing) and it is the line the
+kernel-checked theorem `real_tables_first_line_is_no_row` is about. -/
+def headerOK (content gen : Bytes) : Bool :=
+  (match parseLine (firstLine content) with
+   | .ok none => true
+   | _ => false) && firstLine content == gen
+
+def wfLine (t : Tables) (cb cu : Bytes) : String :=
   match t.b2uRows, t.u2bRows with
   | .ok rb, .ok ru =>
-    s!"wf b2u={rb.length}/{(b2uMap rb).size}/{wfB2U rb} u2b={ru.length}/{(u2bMap ru).size}/{wfU2B ru} ascii={t.ascii}"
+    s!"wf b2u={rb.length}/{(b2uMap rb).size}/{wfB2U rb} u2b={ru.length}/{(u2bMap ru).size}/{wfU2B ru} ascii={t.ascii} hdr={headerOK cb Gen.Big5.b2uFirstLine}/{headerOK cu Gen.Big5.u2bFirstLine}"
   | _, _ => "PANIC"
 
 /-- default tables, and the tables under the two ini variants (`none`: InitConfig fails, a file cannot be read). -/
@@ -96,6 +106,16 @@ def stepC17 (st : St) (ws : List String) : St × String :=
   match ws with
   | ["reset"] => ({ st with hist := { b2u := ∅, u2b := ∅ }, hVars := [], hIni := [] }, "ok")
   | ["init", via, b, u] => if via = "var" ∨ via = "ini" then histInit st via b u else (st, "bad-op")
+  | ["start", b, u, h] =>
+    match specContent st b, specContent st u, parseHex h with
+    | some _, some _, some name =>
+      let fs : FS := fun p => (specContent st p).join
+      let b0 : Boot := { loader := { b2u := ∅, u2b := ∅ } }
+      (st, match boot fs b u name Gen.Big5.initOrder b0 with
+        | .ok (b', false) => (match b'.bbsnameBig5 with | some r => toHex r | none => "unset")
+        | .ok (_, true) => "INIT-ERR"
+        | .error f => toString f)
+    | _, _, _ => (st, "bad-op")
   | _ =>
   let out := match ws with
     | ["hb2u", h] => match parseHex h with
@@ -115,7 +135,7 @@ def stepC17 (st : St) (ws : List String) : St × String :=
           if v = "d" then (match st.cfgD with | some t' => convOp t' op h | none => "INIT-ERR")
           else if v = "m" then (match st.cfgM with | some t' => convOp t' op h | none => "INIT-ERR")
           else "bad-op"
-    | ["wf"] => wfLine t
+    | ["wf"] => wfLine t st.cb st.cu
     | ["b2u", h] => match parseHex h with
         | some s => showM toHex (big5ToUtf8 t.b2u s)
         | none => "bad-op"
